@@ -6,7 +6,7 @@
    inside the slab, so that lines + slabs + the trivial outside decide EVERY POINT OF THE PLANE.  Which
    paths are fed to the checker is per-run validation (DESIGN.md section 4). *)
 From Coq Require Import QArith Qminmax Qabs.
-From LV Require Import Base.Prelude Model.Bezier Model.Winding Checker.Region Checker.Slab Proofs.C01_Region Proofs.C01_Slab.
+From LV Require Import Base.Prelude Model.Bezier Model.Winding Checker.Region Checker.Slab Proofs.C01_Region Proofs.C01_Slab Gen.Functions Proofs.Gen_Functions.
 Open Scope Q_scope.
 
 (* the squared distance to a segment is the minimum over the segment *)
@@ -101,6 +101,15 @@ Example C01_example_plane :
   check_plane EvenOdd (1#100) bow tbow [0; 4] = false.
 Proof. vm_compute. repeat split; reflexivity. Qed.
 
+(* the two position orders of the sweep, translated from fill.rs on every run (Gen/Functions.v), tell the same story:
+   compare_positions is Greater exactly when is_after, Less exactly when the other point is after, Equal exactly on
+   equal coordinates - a total order on positions (y first, then x) *)
+Theorem C01_sweep_order_consistent : forall a b,
+  (src_compare_positions a b = Gt <-> src_is_after a b = true) /\
+  (src_compare_positions a b = Lt <-> src_is_after b a = true) /\
+  (src_compare_positions a b = Eq <-> px a == px b /\ py a == py b).
+Proof. exact src_sweep_order_consistent. Qed.
+
 Print Assumptions C01_dist2_spec.
 Print Assumptions C01_band_convex.
 Print Assumptions C01_farb_spec.
@@ -111,3 +120,4 @@ Print Assumptions C01_sort_q_spec.
 Print Assumptions C01_slab_sound.
 Print Assumptions C01_slab_overlap_sound.
 Print Assumptions C01_plane_sound.
+Print Assumptions C01_sweep_order_consistent.
